@@ -644,6 +644,32 @@ def stepLine (st : State) (w : List String) : State × String :=
         (st', showOut op o)
       | _, _ => (st, "bad-op")
     | _, _ => (st, "bad-op")
+  | ["read_alias", how, what] =>
+    -- config_read_file / config_read_string whose argument is owned by the configuration (config_error_file(), a string
+    -- value): the argument is copied before the old contents go, so it is an ordinary read of those bytes
+    let arg : Option Bytes :=
+      if what == "errfile" then c.errFile
+      else match parsePath what with
+        | some path => match c.root.get? path with
+          | some n => if n.ty == T_STRING then n.sval else none
+          | none => none
+        | none => none
+    match arg with
+    | some b =>
+      let op := Op.read (if how == "file" then .file b else .string b)
+      let (st', o) := step st op
+      (st', showOut op o)
+    | none => (st, "bad-op")
+  | ["read_alias_src", how, sp] =>
+    match (parsePath sp).bind (fun path => c.root.get? path) with
+    | some n =>
+      match n.file with
+      | some b =>
+        let op := Op.read (if how == "file" then .file b else .string b)
+        let (st', o) := step st op
+        (st', showOut op o)
+      | none => (st, "bad-op")
+    | none => (st, "bad-op")
   | ["add_alias", pp, sp, kind, ty] =>
     -- config_setting_add(parent, <name or string value of another setting>, ty): the argument is copied, so the
     -- call is an ordinary addition under those bytes
